@@ -133,6 +133,11 @@ func drawC09One(t *rapid.T) c09One {
 
 	lead := cfg.LeadingTrack()
 	start := rapid.Int64Range(0, 1<<34).Draw(t, "start")
+	if variant == mux.VariantMPEGTS && rapid.IntRange(0, 3).Draw(t, "wrap33") == 0 {
+		// the 33-bit MPEG-TS clock wraps a few seconds into the run (after the client attached)
+		start = 1<<33 - rapid.Int64Range(2*90000, 5*90000).Draw(t, "beforeWrap")
+	}
+	cfg.NTPZoneMin = rapid.SampledFrom([]int{0, 0, 0, 120, -330}).Draw(t, "ntpZone")
 	ntpBase := int64(1_577_836_800_000_000_000)
 	var all [][]mux.Op
 	var medias [][]float64
@@ -404,6 +409,10 @@ func runC09One(one c09One) c09Result {
 			res.violation = fmt.Sprintf("the client stopped on its own with %q while reading a well-formed stream", msg)
 			return res
 		}
+	}
+	if r.ChangedAfterDelivery > 0 {
+		res.violation = fmt.Sprintf("%d delivered units changed after their callback returned (first: %s): the slices handed to the application are reused", r.ChangedAfterDelivery, r.ChangedExample)
+		return res
 	}
 	if r.OnTracksCalls == 0 {
 		// the client may legitimately stop early (e.g. the next segment was late); but failing before
